@@ -86,6 +86,17 @@ def run(ctx):
     quick = ctx.tier == "quick"
     runs = [("corpus", ["-mode", "corpus"]),
             ("random", ["-mode", "random", "-n", 45 if quick else 600])]
+    cdir = os.path.join(vlib.VERIF, "corpus", "C19")
+    descs = []
+    for k, name in enumerate(sorted(os.listdir(cdir)) if os.path.isdir(cdir) else []):
+        if name.endswith(".json"):
+            c = json.load(open(os.path.join(cdir, name)))
+            d = dict(c["desc"], name="f%d" % k, kind="corpus-file", targets=[c["target"]])
+            il.rename_self(d, c["desc"]["name"], "f%d" % k)
+            descs.append(d)
+    if descs:
+        runs.insert(1, ("corpusfiles", ["-mode", "progs", "-progs",
+                                        il.write_progs(os.path.join(ctx.scratch, "corpus_progs.json"), descs)]))
     terms, jsons, err = run_harness(ctx, binp, runs)
     if err:
         ctx.report({"unchecked": "harness run", "detail": err}, {"kind": "harness"}, failing_input=False)
